@@ -60,7 +60,8 @@ def build():
       'no_next()/does_jump()/pops_block() and isinstance(op, SEND/GET_ANEXT) are arbitrary but fixed predicates of the opcode',
       'Block(code) is modelled by its code list (id = code[0].index, empty incoming/outgoing): A-BLOCK',
       'precondition of _split_bytecode: next-links are consistent (bytecode[j].next is bytecode[j+1], the last has next None) and '
-      'opcodes are pairwise distinct objects -- established by opcodes.build_opcodes (unverified surround, sampled natively)',
+      'opcodes are pairwise distinct objects -- proved as postconditions of opcodes._make_opcode_list in the third theory (the passes between '
+      'build_opcodes and _split_bytecode -- process_code, add_pop_block_targets -- do not rewrite next links: not proved, sampled natively)',
       'precondition of _split_bytecode: python_version < (3, 12) or the code has no SEND / GET_ANEXT opcode '
       '(the async-for / yield-from block surgery of 3.12 is not under contract: bounded native sweep only)',
   ]
@@ -102,7 +103,121 @@ def build():
              'prev_block': S.Opt(Block)},
       ghost_out={'starts': S.Seq(S.INT)}))
   _order_nodes(T)
-  return [T, _compute_order_theory()]
+  return [T, _compute_order_theory(), _opcodes_theory()]
+
+
+def _opcodes_theory():
+  """opcodes._make_opcode_list / _add_jump_targets: instruction indices, next/prev links, jump-target resolution.
+
+  Opcodes are heap objects here (their index / next / prev / target / arg fields are written).  What is proved is
+  what blocks._split_bytecode assumes about its input (consistent next links, pairwise distinct opcodes) and the
+  C16 clause `every jump target resolves to an instruction in the same code object`."""
+  T = Theory('C16')
+  T.append_frame_trigger = True
+  Ref = S.Uninterp('OpRef')
+  OptRef = S.Opt(Ref)
+  SeqR = S.Seq(Ref)
+  Item = S.Tup(S.INT, Ref)
+  Items = S.Seq(Item)
+  D = S.DictOf(S.INT, Ref)
+  OTI = S.DictOf(S.INT, S.INT)
+  Ver = S.Tup(S.INT, S.INT)
+  T.sorts.update(OpRef=Ref)
+  T.bind_heap(OPCODES_PY, 'Opcode', Ref, collections.OrderedDict(
+      index=S.INT, next=OptRef, prev=OptRef, target=OptRef, arg=S.INT, argval=S.INT))
+  ZR = Ref.z3()
+  is_jb = z3.Function('is_JUMP_BACKWARD', ZR, z3.BoolSort())
+  is_eaf = z3.Function('is_END_ASYNC_FOR', ZR, z3.BoolSort())
+  known_jump = z3.Function('has_known_jump', ZR, z3.BoolSort())
+  x = z3.Const('x', ZR)
+  T.axioms.append(z3.ForAll([x], z3.Not(z3.And(is_jb(x), is_eaf(x))), patterns=[is_jb(x)]))   # two different concrete opcode classes
+  T.attr_models[(Ref.name, 'isinstance:JUMP_BACKWARD')] = lambda ex, v: is_jb(v.t)
+  T.attr_models[(Ref.name, 'isinstance:END_ASYNC_FOR')] = lambda ex, v: is_eaf(v.t)
+  T.method_models[(Ref.name, 'has_known_jump')] = lambda ex, recv, a, k: V(S.BOOL, known_jump(recv.t))
+  B = lambda nm, f: Builtin(nm, f, needs_ex=True)
+  T.symbols['known_jump'] = B('known_jump', lambda ex, a, k, n: V(S.BOOL, known_jump(ex.coerce(a[0], Ref).t)))
+  sorted_items = z3.Function('sorted_items', D.z3(), Items.z3())
+
+  def b_sorted(ex, a, k, n):
+    """sorted(d.items()) for a dict with int keys: the (key, value) pairs in strictly increasing key order (A-LIB)."""
+    if not (isinstance(a[0], tuple) and a[0][0] == 'dict_items'):
+      raise NotImplementedError('sorted(%r)' % (a[0],))
+    d = a[0][1]
+    r = sorted_items(d.t)
+    p, q, kk = z3.Ints('p q kk')
+    ex.assume(Items.len(r) >= 0)
+    ex.assume(z3.ForAll([p], z3.Implies(z3.And(0 <= p, p < Items.len(r)), z3.And(
+        D.has(d.t, Item.get(Items.at(r, p), 0)), Item.get(Items.at(r, p), 1) == D.get(d.t, Item.get(Items.at(r, p), 0)))),
+        patterns=[Items.at(r, p)]))
+    ex.assume(z3.ForAll([p, q], z3.Implies(z3.And(0 <= p, p < q, q < Items.len(r)),
+                                          Item.get(Items.at(r, p), 0) < Item.get(Items.at(r, q), 0)),
+                        patterns=[z3.MultiPattern(Items.at(r, p), Items.at(r, q))]))
+    pos = z3.Function('pos_in_sorted_items', D.z3(), z3.IntSort(), z3.IntSort())
+    ex.assume(z3.ForAll([kk], z3.Implies(D.has(d.t, kk), z3.And(0 <= pos(d.t, kk), pos(d.t, kk) < Items.len(r),
+                                                              Item.get(Items.at(r, pos(d.t, kk)), 0) == kk)),
+                        patterns=[D.has(d.t, kk)]))
+    return V(Items, r)
+  T.builtin_models = {'sorted': b_sorted, 'typing.cast': lambda ex, a, k, n: a[1], 'cast': lambda ex, a, k, n: a[1]}
+  T.assumptions += [
+      'third theory (opcodes.py): opcodes are heap objects; JUMP_BACKWARD and END_ASYNC_FOR are different concrete classes; has_known_jump() is a fixed predicate of the opcode',
+      'A-LIB: sorted(d.items()) for int keys lists exactly the items of d in strictly increasing key order; typing.cast returns its argument',
+      'precondition of _make_opcode_list: distinct offsets hold distinct opcode objects (opcodes._make_opcodes creates one object per instruction: unverified)',
+      'precondition of _add_jump_targets: a target pre-set by _add_setup_except is an opcode of the list, and the offset a jump names is a key of offset_to_index '
+      '(disassembler output: unverified); both are sampled by the native pipeline sweep',
+  ]
+  distinct_vals = ('all(all(implies(a != b and a in offset_to_op and b in offset_to_op, offset_to_op[a] != offset_to_op[b])'
+                   ' for b in every("Int")) for a in every("Int"))')
+  ops_ok = lambda o, n: [
+      'all(%s[k].index == k for k in range(%s))' % (o, n),
+      'all(%s[k].next == %s[k + 1] for k in range(%s - 1))' % (o, o, n),
+      'implies(%s > 0, %s[%s - 1].next is None and %s[0].prev is None)' % (n, o, n, o),
+      'all(%s[k + 1].prev == %s[k] for k in range(%s - 1))' % (o, o, n),
+      'all(all(implies(j != k, %s[j] != %s[k]) for k in range(%s)) for j in range(%s))' % (o, o, n, n),
+  ]
+  T.add(Contract(
+      OPCODES_PY, '_make_opcode_list', collections.OrderedDict(offset_to_op=D, python_version=Ver),
+      requires=[distinct_vals],
+      ensures=ops_ok('result[0]', 'len(result[0])') + [
+          # every offset is mapped to the index of an instruction of the list (an elided instruction to the one after it)
+          'all(implies(off in offset_to_op, off in result[1] and 0 <= result[1][off] and result[1][off] < len(result[0])) for off in every("Int"))',
+          # the list consists of instructions of this code object
+          'all(any(offset_to_op[off] == result[0][k] and off in offset_to_op for off in every("Int")) for k in range(len(result[0])))',
+      ],
+      loops={0: Loop(ops_ok('ops', 'len(ops)') + [
+          'index == len(ops) - 1',
+          'implies(len(ops) > 0, same(prev_op, ops[len(ops) - 1]))', 'implies(len(ops) == 0, prev_op is None)',
+          'all(any(op_items[m][1] == ops[k] for m in range(i)) for k in range(len(ops)))',
+          'all(op_items[m][0] in offset_to_index and 0 <= offset_to_index[op_items[m][0]] and offset_to_index[op_items[m][0]] <= len(ops) for m in range(i))',
+          # only the instruction just elided may still point one past the end
+          'all(implies(offset_to_index[op_items[m][0]] == len(ops), m == i - 1 and m + 1 < len(op_items) and is_jb(op_items[m][1]) and is_eaf(op_items[m + 1][1])) for m in range(i))',
+          'all(implies(off in offset_to_index, any(op_items[m][0] == off for m in range(i))) for off in every("Int"))',
+      ], index='i', seq='S_', havoc=['$H.Opcode.index', '$H.Opcode.next', '$H.Opcode.prev'])},
+      result=S.Tup(SeqR, OTI),
+      ghost={'ops': SeqR, 'offset_to_index': OTI, 'prev_op': OptRef, 'index': S.INT, 'op_items': Items}))
+  T.symbols['is_jb'] = B('is_jb', lambda ex, a, k, n: V(S.BOOL, is_jb(ex.coerce(a[0], Ref).t)))
+  T.symbols['is_eaf'] = B('is_eaf', lambda ex, a, k, n: V(S.BOOL, is_eaf(ex.coerce(a[0], Ref).t)))
+  in_ops = lambda t: 'any(ops[j] == %s for j in range(len(ops)))' % t
+  T.add(Contract(
+      OPCODES_PY, '_add_jump_targets', collections.OrderedDict(ops=SeqR, offset_to_index=OTI),
+      requires=['all(ops[k].index == k for k in range(len(ops)))',
+                'all(all(implies(j != k, ops[j] != ops[k]) for k in range(len(ops))) for j in range(len(ops)))',
+                'all(implies(ops[k].target is not None, %s) for k in range(len(ops)))' % in_ops('ops[k].target'),
+                'all(implies(ops[k].target is None and known_jump(ops[k]), ops[k].argval in offset_to_index and 0 <= offset_to_index[ops[k].argval]'
+                ' and offset_to_index[ops[k].argval] < len(ops)) for k in range(len(ops)))'],
+      ensures=[
+          # every jump target resolves to an instruction of the same code object, and arg is that instruction's index
+          'all(implies(ops[k].target is not None, 0 <= ops[k].arg and ops[k].arg < len(ops) and ops[ops[k].arg] == ops[k].target)'
+          ' for k in range(len(ops)))',
+          'all(implies(known_jump(ops[k]), ops[k].target is not None) for k in range(len(ops)))',
+          'all(ops[k].index == k for k in range(len(ops)))',
+      ],
+      loops={0: Loop([
+          'all(implies(ops[k].target is not None, 0 <= ops[k].arg and ops[k].arg < len(ops) and ops[ops[k].arg] == ops[k].target) for k in range(i))',
+          'all(implies(known_jump(ops[k]), ops[k].target is not None) for k in range(i))',
+          'all(ops[k].index == k for k in range(len(ops)))',
+          'all(same(ops[k].target, old(ops[k].target)) and same(ops[k].argval, old(ops[k].argval)) for k in range(i, len(ops)))',
+      ], index='i', seq='S_', havoc=['$H.Opcode.arg', '$H.Opcode.argval', '$H.Opcode.target'])}))
+  return T
 
 
 def _compute_order_theory():
@@ -267,13 +382,22 @@ def _order_nodes(T):
       ghost={'order': SeqN, 'seen': SetN, 'queue': PredMap, 'predecessor_map': PredMap, 'dead': SetN, 'root': Node}))
 
 
-SURROUND = ['opcodes.build_opcodes / pyc.py (instruction indices, next/prev links, jump-target resolution)',
+SURROUND = ['opcodes._make_opcodes / _add_setup_except (object per instruction, exception-table rewriting), pyc.py',
             'blocks.add_pop_block_targets, exception-table rewriting',
             'blocks._preprocess_async_for_and_yield, _remove_jmp_to_get_anext_and_merge, _remove_jump_back_block (3.12 async surgery)',
             'cfg_utils.compute_predecessors (only needed for the final assert of order_nodes)',
             'process_blocks.py']
 NATIVE_IN_QUICK = True
 MUTANTS = [
+    # opcodes.py (third theory)
+    dict(name='ops_index_not_restored', file=OPCODES_PY, old="      offset_to_index[off] = index\n      index -= 1\n      continue\n", new="      offset_to_index[off] = index\n      continue\n"),
+    dict(name='ops_no_next_link', file=OPCODES_PY, old="    if prev_op:\n      prev_op.next = op\n", new=""),
+    dict(name='ops_last_next_stale', file=OPCODES_PY, old="    op.prev = prev_op\n    op.next = None\n", new="    op.prev = prev_op\n"),
+    dict(name='ops_offset_off_by_one', file=OPCODES_PY, old="    op.index = index\n    offset_to_index[off] = index\n", new="    op.index = index\n    offset_to_index[off] = index + 1\n"),
+    dict(name='ops_prev_wrong', file=OPCODES_PY, old="    op.prev = prev_op\n", new="    op.prev = op\n"),
+    dict(name='jump_target_off_by_one', file=OPCODES_PY, old="      op.target = ops[op.arg]\n", new="      op.target = ops[op.arg - 1]\n"),
+    dict(name='jump_arg_is_offset', file=OPCODES_PY, old="      op.arg = op.argval = offset_to_index[op.argval]\n", new="      op.arg = op.argval = op.argval\n"),
+    dict(name='jump_preset_arg_not_filled', file=OPCODES_PY, old="      op.arg = op.argval = op.target.index\n", new="      pass\n"),
     dict(name='edges_elif_last_target', file=BLOCKS_PY, old="    if last_op.target:\n      block.connect_outgoing(first_op_to_block[last_op.target])\n", new="    elif last_op.target:\n      block.connect_outgoing(first_op_to_block[last_op.target])\n"),
     dict(name='edges_no_fallthrough_for_last_jump', file=BLOCKS_PY, old="    if next_block and not last_op.no_next():\n", new="    if next_block and not last_op.no_next() and not last_op.target:\n"),
     dict(name='edges_incoming_not_recorded', file=BLOCKS_PY, old="    self.outgoing.add(target)\n    target.incoming.add(self)\n", new="    self.outgoing.add(target)\n"),
